@@ -314,11 +314,11 @@ func c23BashComparable(cs c23Case, style int) bool {
 
 func c23RunSearch(c *Ctx, cs c23Case, style int) (fail bool, what string) {
 	script, args := c23Script(cs, style)
-	bs := runShell(c, "bash", script, args...)
-	in := runInterp(c, syntax.LangBash, script, args...)
-	if bs.TimedOut || in.TimedOut && bs.TimedOut {
-		return false, ""
+	bs, ok := c23Bash(c, script, args...)
+	if !ok {
+		return false, "oracle-unavailable"
 	}
+	in := runInterp(c, syntax.LangBash, script, args...)
 	if in.Panic != "" {
 		return true, "interp panicked: " + in.Panic
 	}
@@ -332,6 +332,22 @@ func c23RunSearch(c *Ctx, cs c23Case, style int) (fail bool, what string) {
 			}(), c23ReadCmd(cs), cs.input, in.Stdout, bs.Stdout)
 	}
 	return false, ""
+}
+
+
+// c23Bash runs the bash oracle; a run that could not be trusted (exec error, timeout, non-zero
+// status with nothing printed — seen under heavy machine load) is retried, then reported as
+// unavailable so that the case is skipped rather than blamed on the implementation.
+func c23Bash(c *Ctx, script string, args ...string) (ShellResult, bool) {
+	var bs ShellResult
+	for try := 0; try < 3; try++ {
+		bs = runShell(c, "bash", script, args...)
+		if bs.Err == "" && !bs.TimedOut && !(bs.Status != 0 && bs.Stdout == "") {
+			return bs, true
+		}
+		time.Sleep(time.Duration(50*(try+1)) * time.Millisecond)
+	}
+	return bs, false
 }
 
 // ---- generators ----
@@ -708,6 +724,10 @@ func c23(c *Ctx) {
 	})
 	nb := 0
 	for i, sc := range shCases {
+		if results[i].what == "oracle-unavailable" {
+			c.Case("sh\x00"+sc.witness, false, "oracle-unavailable")
+			continue
+		}
 		nb++
 		c.Case("sh\x00"+sc.witness, true, "bash-compared", fmt.Sprintf("style=%d", sc.style))
 		if results[i].fail {
